@@ -7,11 +7,11 @@ import types
 import warnings as _warnings
 
 from . import smt
-from .contracts import lookup, SpecEval
+from .contracts import REG, lookup, SpecEval
 from .front import key_of_function, find_function
-from .terms import (And, Or, Not, Implies, Ite, Eq, asV, asB, asI, asS, mkB, mkI, mkS, TRUE, FALSE,
-                    const_term, seq_of_terms, KIND_OF_PY)
-from .values import (Val, PyC, PyList, SymObj, SDict, Closure, BM, Exc, OutOfSubset, fresh_name)
+from .terms import (mseq, And, Or, Not, Implies, Ite, Eq, asV, asB, asI, asS, mkB, mkI, mkS, TRUE, FALSE,
+                    const_term, seq_of_terms, KIND_OF_PY, isinstance_term)
+from .values import (CondList, Val, PyC, PyList, SymObj, SDict, Closure, BM, Exc, OutOfSubset, fresh_name)
 from .exprs import is_exc
 
 LIST_MUTATORS = {"append", "extend", "insert", "pop", "remove", "clear", "sort", "reverse"}
@@ -125,6 +125,9 @@ class CallMixin:
             return [(st, Val(f"({self.declare_fun('obj_vars', ['V'], 'V')} {asV(v)})", kind="dict", origin=(f"{v.origin}.__dict__" if v.origin else None)))]
         if v.kind in ("list", "dict", "str", "set", "tuple") and v.cls is None:
             return [(st, BM(v, name))]
+        if name == "__name__" and v.kind == "cls":
+            # every class has a name: a function of the class
+            return [(st, Val(f"({self.declare_fun('cls_name', ['Int'], 'String')} (cid {asV(v)}))", "S"))]
         if v.cls is not None:
             d = _static(v.cls, name, _MISSING)
             if d is None and name not in self.instance_attrs(v.cls):
@@ -148,6 +151,17 @@ class CallMixin:
                 return [(st, BM(v, name))]
         if v.t in self.escaped_objs and name in self.oattrs(st, self.escaped_objs[v.t]):
             return [(st, self.oattrs(st, self.escaped_objs[v.t])[name])]
+        if v.cls is None and v.sort == "V" and v.kind in (None, "obj"):
+            # a computed property of the element hierarchy read from a receiver of unknown class: dispatch through the
+            # caller's-view contract, provided the receiver is provably an element here
+            from statham.schema.elements import Element as _Element
+            d = _static(_Element, name)
+            if isinstance(d, property) and self.attr_alias(name) == name and lookup(key_of_function(d.fget), None) is not None \
+                    and lookup(key_of_function(d.fget), None).inst is None:
+                g = isinstance_term(asV(v), _Element, self.ctab)
+                self.obl("kind", node, st, g, detail=f"receiver of .{name} is an Element")
+                st.assume(g, fact=True)
+                return self.call_function(st, d.fget, [v], {}, node, selfcls=None)
         t = f"({self.cur_attr(st, name)} {asV(v)})"
         hint = self.attr_kinds.get(name)
         src = None
@@ -311,6 +325,12 @@ class CallMixin:
         wrapped = getattr(fn, "__wrapped__", None)
         key = key_of_function(fn) + ("@setter" if setter else "")
         inst = selfcls.__name__ if selfcls is not None else None
+        if inst is not None and args and isinstance(args[0], Val) and not isinstance(args[0], PyC) and args[0].t not in self.exact_class:
+            # the receiver's class is only known up to subclassing: a per-class instantiation does not apply;
+            # only a caller's-view contract (inst=None) covers dynamic dispatch
+            inst = None
+            if lookup(key, None) is None and any(k == key for k, _ in REG):
+                raise OutOfSubset(f"dynamic dispatch on a receiver of inexact class needs a caller's-view contract: {key}", node)
         c = lookup(key, inst)
         if c is None or c.inst is None:
             for a in args:
@@ -414,6 +434,8 @@ class CallMixin:
                     continue
                 if self.exc_expected(ecls):
                     s2 = st.fork().assume(ct)
+                    if c.ghost.get("defines_raise"):
+                        s2.assume(sp.compile_bool(c.ghost["defines_raise"]), fact=True)
                     out.append((s2, Exc(ecls, node=node)))
                 elif (names, cond) in c.raises:
                     self.obl("safe", node, st, Not(ct), detail=f"{nm} from {c.name}")
@@ -429,6 +451,11 @@ class CallMixin:
         s3 = st.fork()
         for t in noraise:
             s3.assume(t)
+        if c.ghost.get("defines_raise"):
+            # spec vocabulary *defined* by this callee's outcome (e.g. csem(e, v): e.construct(v, .) returns normally)
+            s3.assume(Not(sp.compile_bool(c.ghost["defines_raise"])), fact=True)
+            self.trusted_used.add(f"definition: `{c.ghost['defines_raise']}` names the exceptional outcome of {c.name} "
+                                  f"(assumes that outcome is a function of the arguments between writes)")
         if c.ghost.get("function"):
             # functional contract: the result *is* this term of the arguments (no fresh symbol)
             res = sp.ev(ast.parse(c.ghost["function"], mode="eval").body)
@@ -607,6 +634,8 @@ class CallMixin:
                     out.append((s, v))
             else:
                 is_gen = any(isinstance(x, (ast.Yield, ast.YieldFrom)) for x in ast.walk(n))
+                if is_gen:
+                    s0.env = {**s0.env, "__yield__": PyList([], "list")}
                 for s, sig in self.exec_block(s0, n.body):
                     ylist = s.env.get("__yield__", PyList([], "list"))
                     s.env = saved_env
@@ -873,9 +902,16 @@ class CallMixin:
             return [t.id]
         return [x for e in t.elts for x in self.target_names(e)]
 
-    def iter_seq_term(self, it, node):
+    def iter_seq_term(self, it, node, st=None):
         """Sequence term iterated by `for x in it` for an SMT-level iterable; returns (seq term, elem builder)."""
         lv = self.lift(it)
+        if lv.kind is None and lv.sort == "V" and st is not None:
+            # unknown kind: the iteration is in the subset if the value is provably a list or a tuple here
+            g = f"(or (k_list {lv.t}) (k_tuple {lv.t}))"
+            self.obl("kind", node, st, g, detail="iterated value is a list or a tuple")
+            st.assume(g, fact=True)
+            sq = f"(seqof {lv.t})"
+            return sq, (lambda j: Val(f"(seq.nth {sq} {j})"))
         if lv.kind in ("list", "tuple", "set"):
             sq = f"(seqof {asV(lv)})"
             return sq, (lambda j: Val(f"(seq.nth {sq} {j})"))
@@ -901,7 +937,7 @@ class CallMixin:
 
     def comp_symbolic(self, st, n, g, it, kind):
         """Comprehension over a symbolic sequence: characterised by quantified facts over a generic index."""
-        sq, elem = self.iter_seq_term(it, n)
+        sq, elem = self.iter_seq_term(it, n, st)
         j = self.declare(fresh_name("j"), "Int")
         rng = f"(and (<= 0 {j}) (< {j} (seq.len {sq})))"
         base_pc = st.pc
@@ -1053,7 +1089,7 @@ class CallMixin:
                     if not _re.search(r"(?<![\w])" + _re.escape(j) + r"(?![\w])", px):
                         qd = fresh_name("qd")
                         s_ok.assume(f"(forall (({qd} Int)) (! (=> (and (<= 0 {qd}) (< {qd} (seq.len {rs}))) {px.replace(x, f'(seq.nth {rs} {qd})')}) :pattern ((seq.nth {rs} {qd}))))")
-                        s_ok.assume(f"(forall (({x} V)) (! (= (ismem {rs} {x}) (and (ismem {sq} {x}) {px})) :pattern ((ismem {rs} {x})) :pattern ((ismem {sq} {x}))))")
+                        s_ok.assume(f"(forall (({x} V)) (! (= (ismem {mseq(rs)} {x}) (and (ismem {mseq(sq)} {x}) {px})) :pattern ((ismem {mseq(rs)} {x})) :pattern ((ismem {mseq(sq)} {x}))))")
                 # at least two members iff two distinct indices pass
                 p1, p2 = fresh_name("p1"), fresh_name("p2")
                 if not lean:
